@@ -104,6 +104,10 @@ def embed(op: np.ndarray, qubits: List[int], n: int) -> np.ndarray:
 # ---------------------------------------------------------------------------
 
 
+class StepLimit(Exception):
+    """a scenario that sets `max_steps` treats running past it as a verdict of its own (the code under analysis loops)"""
+
+
 @dataclass(eq=False)
 class RegSym:
     name: str
@@ -435,7 +439,9 @@ class Interp:
 
     def stmt(self, st, env, m):
         self.steps += 1
-        if self.steps > 200000:
+        if self.steps > (getattr(self.sc, "max_steps", None) or 200000):
+            if getattr(self.sc, "max_steps", None):
+                raise StepLimit("the scenario's bound on interpreter steps is exceeded")  # (the rule reads this as `does not terminate`)
             raise AnalysisError("circuit evaluation: step bound exceeded")
         if isinstance(st, ast.Expr):
             if isinstance(st.value, ast.Constant):
@@ -749,6 +755,8 @@ class Interp:
                 return env[e.id]
             if e.id in ("True", "False", "None"):
                 return {"True": True, "False": False, "None": None}[e.id]
+            if e.id == "__debug__":
+                return True  # (the interpreter is not run with -O: assertions and `if __debug__` blocks are active)
             if e.id in getattr(self.sc, "globals", {}):
                 return self.sc.globals[e.id]  # a module-level constant the caller evaluated with the constant evaluator
             return self.global_name(e.id, m)
@@ -1021,7 +1029,17 @@ class Interp:
             store = self.sc.__dict__.setdefault("module_globals", {})
             key = (r[1].name, id(r[2]))
             if key not in store:
-                store[key] = self.eval(r[2], {}, r[1])
+                try:
+                    store[key] = self.eval(r[2], {}, r[1])
+                except AnalysisError:
+                    # (a constant computed from library types, e.g. a width from ctypes.sizeof: the constant evaluator models those)
+                    try:
+                        v_ = self.ev.eval(r[2], r[1])
+                    except Unknown:
+                        raise
+                    if not isinstance(v_, (int, float, str, bool, bytes, type(None))):
+                        raise
+                    store[key] = v_
             return store[key]
         if kind == "classattr":
             c = r[1]
